@@ -68,8 +68,8 @@ func clSyncWhileLeaving(hist []string, m string) bool {
 	left := false
 	for _, a := range hist {
 		f := strings.Fields(a)
-		if f[0] == "leave" && f[1] == m {
-			left = true
+		if (f[0] == "leave" && f[1] == m) || (f[0] == "forceleave" && f[2] == m) {
+			left = true // m is (being) recorded as leaving somewhere
 		}
 		if left && (f[0] == "pushpull" || f[0] == "join") {
 			return true // any state sync while m's leave is in progress can carry its leave time as a join time
@@ -78,11 +78,22 @@ func clSyncWhileLeaving(hist []string, m string) bool {
 	return false
 }
 
-// clForceLeft: the history contains a force-leave of member m.
+// clForceLeft: the history contains a force-leave of member m, or m's graceful leave followed by its restart.
 func clForceLeft(hist []string, m string) bool {
 	for _, a := range hist {
 		f := strings.Fields(a)
 		if f[0] == "forceleave" && f[2] == m {
+			return true
+		}
+	}
+	// or: m left gracefully and came back as a fresh instance (tombstone time + 1 vs. rejoin time)
+	left := false
+	for _, a := range hist {
+		f := strings.Fields(a)
+		if f[0] == "leave" && f[1] == m {
+			left = true
+		}
+		if left && f[0] == "restart" && f[1] == m {
 			return true
 		}
 	}
@@ -131,7 +142,7 @@ func clusterRun(ctx *vc.Ctx, faults bool) {
 				// root cause of the second recorded finding: the member was force-left while it
 				// was unreachable; the left-list of a push/pull carries that leave as status
 				// time + 1, which equals the Lamport time of the member's refuting join
-				ctx.Violation(scn, "truth=alive reported=leaving after a force-leave of the member spread through a push/pull left-list", fmt.Sprintf("shortest history: %v\n%s", hist, v.Message), map[string]interface{}{"scenario": scn, "history": hist})
+				ctx.Violation(scn, "truth=alive reported=leaving: a left-list entry (status time + 1) collides with the member's refuting/rejoin time", fmt.Sprintf("shortest history: %v\n%s", hist, v.Message), map[string]interface{}{"scenario": scn, "history": hist})
 				return
 			}
 			if class == "truth=left reported=failed" && clSyncWhileLeaving(hist, member) {
